@@ -93,7 +93,7 @@ func sameTerm(a, b *Term) bool {
 	case "var":
 		return a.name == b.name
 	}
-	if len(a.args) != len(b.args) || a.p1 != b.p1 || a.p2 != b.p2 || a.size > 64 {
+	if len(a.args) != len(b.args) || a.p1 != b.p1 || a.p2 != b.p2 || a.size > 64 || a.name != b.name {
 		return false
 	}
 	for i := range a.args {
@@ -613,6 +613,14 @@ func printTree(sb *strings.Builder, t *Term, names map[*Term]string) {
 		fmt.Fprintf(sb, "((_ fp.to_ubv %d) RTZ ", t.w)
 	case "fp.add", "fp.sub", "fp.mul", "fp.div":
 		fmt.Fprintf(sb, "(%s RNE ", t.op)
+	case "uf":
+		sb.WriteString("(" + t.name)
+		for _, a := range t.args {
+			sb.WriteString(" ")
+			printTree(sb, a, names)
+		}
+		sb.WriteString(")")
+		return
 	case "mulhi64":
 		sb.WriteString("((_ extract 127 64) (bvmul ((_ zero_extend 64) ")
 		printTree(sb, t.args[0], names)
